@@ -97,6 +97,14 @@ def signable_case(rng, gpg: bool, stats: dict | None = None, states=None, npool=
     env = {"signatures": {}, "signed": signed}
     if rng.random() < 0.5:
         env = {"signed": signed, "signatures": {}}
+    if rng.random() < 0.06:
+        # a crowded signature map: dozens of well-formed entries by strangers ahead of the ones that matter (position must not matter)
+        import hashlib as _h
+        for j in range(rng.choice([33, 40, 70])):
+            kk = _h.sha256(b"stranger%d" % j).hexdigest()
+            env["signatures"][kk] = ({"signature": "00" * 64} if not gpg else {"other_headers": "04001608", "signature": "00" * 64})
+        if stats is not None:
+            stats["state:crowded-map"] = stats.get("state:crowded-map", 0) + 1
     for k, v in entries:
         env["signatures"][k] = v
     # authorized list: random subset of the pool plus strangers, shuffled
